@@ -8,8 +8,9 @@
      Reachability witnesses guard against vacuity.
   2. TLC exports behaviours of the as-is model as scenarios (environment choices + code-shaped expectation +
      predicted violated invariants): every single-cut behaviour (gen1), every two-cut behaviour of a reduced
-     configuration (gen2), three-cut behaviours (gen3), and the single-cut table of the 13-event reference
-     stream (gen1L) that is joined to the byte-level runs.
+     configuration (gen2), three-cut behaviours (gen3), scripts of up to six cuts in which progress and no
+     progress alternate (genI: the budget is per stretch without progress), and the single-cut table of the
+     13-event reference stream (gen1L) that is joined to the byte-level runs.
   3. harness/mcp/c09_streamcli_test.go runs them on a real mcp.Client over a real StreamableClientTransport
      with a scripted RoundTripper inside testing/synctest, plus EVERY byte offset of the reference bodies x
      {read error, clean EOF} at session level and at function level (scanEvents alone).
@@ -152,6 +153,12 @@ def pick(pool, want, rng):
 # signatures
 
 
+def good_cursors(bodies, i):
+    """labelling only; the verdict is GoodCursors in StreamCli.tla"""
+    c = bodies[i]["c"]
+    return {c} | {b["d"] for b in bodies[:i + 1] if b["d"] >= c}
+
+
 def effect_of(inv, e):
     if inv == "NoTruncatedSurfaced":
         return "truncated-surfaced"
@@ -163,7 +170,7 @@ def effect_of(inv, e):
         return "lost-message"
     if inv == "ResumeCursor":
         for i, r in enumerate(e["recon"]):
-            if i < len(e["bodies"]) and r["sent"] not in (e["bodies"][i]["c"], e["bodies"][i]["d"]):
+            if i < len(e["bodies"]) and r["sent"] not in good_cursors(e["bodies"], i):
                 return "cursor-lost" if r["sent"] == -1 else "bad-cursor"
         return "bad-cursor"
     if inv == "CleanFailure":
@@ -184,7 +191,7 @@ def context_of(inv, e):
     bodies, recon = e["bodies"], e["recon"]
     j = None
     for i, r in enumerate(recon):
-        if i < len(bodies) and r["sent"] not in (bodies[i]["c"], bodies[i]["d"]):
+        if i < len(bodies) and r["sent"] not in good_cursors(bodies, i):
             j = i
             break
     if j is not None and j >= 1 and recon[j]["sent"] == -1:
@@ -204,8 +211,14 @@ def context_of(inv, e):
     if b["knd"] == "none":
         return "nocut"
     if j >= 1 and b["c"] == bodies[j - 1]["c"]:
+        eff = effect_of(inv, e)
+        benign = b["knd"] == "err" or b["cls"] in ("bnd", "name", "datafull")
+        if benign and eff == "conn-failed" and len(recon) < len(bodies):
+            # a resumed body brought no new id across and the client broke the connection without another
+            # attempt, although the stretch without progress was still within the budget
+            return "no-progress-within-budget"
         # a resumed body that brought no new id across, abandoned with the synthetic error: the same class
-        if b["knd"] == "err" or b["cls"] in ("bnd", "name", "datafull") or effect_of(inv, e) == "gave-up":
+        if benign or eff == "gave-up":
             return "recut-before-first-id"
     return "cut=%s@%s" % (KINDNAME.get(b["knd"], b["knd"]), CLSNAME.get(b["cls"], b["cls"]))
 
@@ -302,10 +315,12 @@ def _run(tier, seed, replay, ctl):
         "(as the SDK's own server does for a malformed Last-Event-ID), and on a GET without Last-Event-ID continues after the last "
         "message it had at least partly written",
         "retry budget, read conservatively for the verdict: the real response is required when every reconnect sees fewer than "
-        "MaxRetries failed attempts (transport error or 5xx), no 404, and fewer than MaxRetries bodies in a row end without a new id; "
+        "MaxRetries failed attempts (transport error or 5xx), no 404, and fewer than MaxRetries bodies IN A ROW end without a new id "
+        "(a body that brings a new id across starts a new stretch: the budget is per stretch without progress, not per logical stream); "
         "beyond that only a clean completion is required (the exact boundary is compared with the model as drift)",
-        "an event whose content lines were all received but whose blank line was not may or may not count as received "
-        "(both resume cursors are accepted)",
+        "an event whose content lines were all received when a body ended CLEANLY but whose blank line was not may or may not "
+        "count as received: both resume cursors are accepted, on that reconnect and on later ones until a later id supersedes them "
+        "(a client that counted it must also have delivered it, otherwise ExactlyOnceInOrder reports the loss)",
         "SSE events are written as the SDK's writeEvent writes them (event, id, data, blank line); one data line per event",
         "TLC exhaustive results are for streams of 2-3 messages, MaxRetries 0-2, up to 2 cuts (3 in the reduced configuration)",
     ]
@@ -342,6 +357,10 @@ def _run(tier, seed, replay, ctl):
                              classes='{"bnd", "idfull", "data"}' if quick else '{"bnd", "name", "idfull", "data", "datafull"}',
                              answers='{"terr", "ok"}')),
         ("gen1L", 1, cfg_text(cuts=1, kinds='{"post"}', shapes="FirstOnly", schemes='{"dec"}', ms="{12}", mrs="{2}", answers='{"ok"}')),
+        # long scripts: bodies that bring a new id across alternate with bodies that bring none (up to 6 cuts), with
+        # failed attempts in between: the budget is per stretch without progress, not per logical stream
+        ("genI", 1, cfg_text(cuts=6, shapes="TwoShapes", schemes='{"dec"}', ms="{3}", mrs="{2}", classes='{"bnd"}',
+                             answers='{"terr", "ok", "5xx"}', tail="CONSTRAINT Interleaved\nINVARIANTS Export")),
     ]
     try:
         results = run_jobs(jobs, 3)
@@ -356,7 +375,7 @@ def _run(tier, seed, replay, ctl):
             dthread.join()
             raise vlib.MachineryError("StreamCli.tla %s failed (%s)" % (name, res.violation))
     exported = {}
-    for name in ("gen1", "gen2", "gen3", "gen1L"):
+    for name in ("gen1", "gen2", "gen3", "gen1L", "genI"):
         ps = [p for p in results[name].printed if isinstance(p, dict) and "exp" in p and "cfg" in p]
         ps.sort(key=lambda p: json.dumps(p, sort_keys=True))
         exported[name] = ps
@@ -390,12 +409,21 @@ def _run(tier, seed, replay, ctl):
         if rep.get("exp"):
             meta[rep["case"]["id"]] = rep["exp"]
     else:
-        want = {"gen1": 3500 if quick else 10 ** 9, "gen2": 2000 if quick else 10 ** 9, "gen3": 2000 if quick else 40000}
-        for name in ("gen1", "gen2", "gen3"):
+        want = {"gen1": 3500 if quick else 10 ** 9, "gen2": 2000 if quick else 10 ** 9, "gen3": 2000 if quick else 40000,
+                "genI": 1500 if quick else 10 ** 9}
+        for name in ("gen1", "gen2", "gen3", "genI"):
             pool = exported[name]
             if name != "gen1":
                 pool = [p for p in pool if ncuts(p) >= 2]
-            for i, p in enumerate(pick(pool, want[name], rng)):
+            chosen = []
+            if name == "genI":
+                # always include scripts that use all six cuts and that the model completes: more fruitless bodies in
+                # total than the budget allows in a row, yet never that many in a row
+                full = [p for p in pool if ncuts(p) >= 6 and p["exp"]["outcome"] in ("resp", "open")]
+                chosen = rng.sample(full, min(400 if quick else len(full), len(full)))
+                ids_ = {id(p) for p in chosen}
+                pool = [p for p in pool if id(p) not in ids_]
+            for i, p in enumerate(chosen + pick(pool, max(0, want[name] - len(chosen)), rng)):
                 cuts, rc = script_of(p["exp"])
                 cid = "%s.%s" % (name, vlib.sha([p["cfg"], cuts, rc]))
                 if cid in meta:
@@ -490,11 +518,12 @@ def _run(tier, seed, replay, ctl):
                      "abstract class plus a seeded sample), byte = every byte offset of the first body of each reference stream x {read error, "
                      "clean EOF} on a real session, scan = the same offsets through scanEvents alone; distinct = (configuration, bodies served "
                      "with their cuts, reconnects with their answers); non-trivial = at least one body was cut")
-    ran = {n: sum(1 for c in cases if c["id"].startswith(n + ".")) for n in ("gen1", "gen2", "gen3")}
+    ran = {n: sum(1 for c in cases if c["id"].startswith(n + ".")) for n in ("gen1", "gen2", "gen3", "genI")}
     v.cov["behaviours_replayed"] = ran
     v.cov["exhaustive_parts"] = {"single_cut_behaviours": (not replay) and ran["gen1"] == len(exported["gen1"]),
                                  "two_cut_behaviours_reduced_cfg": (not replay) and ran["gen2"] == sum(1 for p in exported["gen2"] if ncuts(p) >= 2),
                                  "three_cut_behaviours_reduced_cfg": (not replay) and ran["gen3"] == sum(1 for p in exported["gen3"] if ncuts(p) >= 2),
+                                 "interleaved_progress_scripts_reduced_cfg": (not replay) and ran["genI"] == sum(1 for p in exported["genI"] if ncuts(p) >= 2),
                                  "byte_offsets_of_reference_bodies": not replay}
     v.cov["exhaustive"] = all(v.cov["exhaustive_parts"].values())
     shown = 0
